@@ -203,7 +203,11 @@ func runC04(c *core.Ctx, res *core.Result) {
 							continue
 						}
 						v := fmt.Sprintf("v%d.%d.%d.%d", c.Idx, cl, t, s)
-						if err := tx.Put([]byte(k), []byte(v)); err != nil {
+						vb := []byte(v)
+						if rr.Chance(6) {
+							v, vb = "", nil // an empty value (nil is what a remote client's empty value arrives as)
+						}
+						if err := tx.Put([]byte(k), vb); err != nil {
 							fail("tx.Put: " + err.Error())
 						}
 						rec.Writes[k] = v
